@@ -22,7 +22,7 @@ from itertools import product
 
 from sympy import S, Rational, Add, Mul, sympify
 
-from vlib import driver
+from vlib import driver, chrun
 from vlib import ir as IR
 from vlib.driver import Run, pmap, seed
 from vlib.model import Model, canon_entry
@@ -399,6 +399,12 @@ def main():
     quick = a.tier == "quick"
     TIMEOUT = 30000 if quick else 180000
     run = Run("C15", a.tier, "translation_validation")
+    from concurrent.futures import ThreadPoolExecutor
+    from vlib.ch_c15 import ch_conditions
+    conds = ch_conditions(a.tier)
+    if quick:
+        conds = [c for c in conds if "ladder" in c.name or "reach" in c.name]
+    fut = ThreadPoolExecutor(max_workers=1).submit(chrun.run_conditions, conds, "", 8)
     base = seed() * 1000003 + 1500
     modes = ["integrate", "plain", "expand_eri", "restricted", "restricted_sym"]
     n = 250 if quick else 3750
@@ -428,7 +434,12 @@ def main():
                                "witness": r.get("witness")})
             if st == "error" and "HarnessError" in r.get("error", ""):
                 run.harness_error(r["error"])
+    for c in chrun.record(run, "e3/valid_combination", fut.result()):
+        run.violation(f"crosshair:{c.name}:{getattr(c, 'call', '')}",
+                      f"CrossHair counterexample for {c.name}: {getattr(c, 'call', '')} ({c.replayed})",
+                      {"condition": c.name, "call": getattr(c, "call", None), "message": c.message[-500:]})
     run.cov["functions_encoded"] = [
+        {"function": "adcgen.spatial_orbitals._has_valid_combination (as it is) [CrossHair: three tensors, two candidate spin maps each, topologies triangle / chain / ladder; spins of the first tensor's candidates concrete per condition, all other spins symbolic; reference: existence of a contradiction-free selection]"},
         {"function": "integrate_spin, transform_to_spatial_orbitals, allowed_spin_blocks, Obj.allowed_spin_blocks, expand_antisym_eri, RegisteredIntermediate.allowed_spin_blocks (run concretely; spin-orbital input and spin-labelled output encoded with shared unknowns)",
          "source_sha": driver.src_hash(*FILES)}]
     run.cov["bounds"] = {
